@@ -5,3 +5,4 @@ pub mod lexer;
 pub mod parser;
 pub mod printer;
 pub mod strings;
+pub mod schema;
